@@ -15,6 +15,7 @@ TEXT = {
  "C12": ("Exactly-one-response is decided for the sequential skeleton only: kernel API EnqueueSQE (refused => answered once with the right error; accepted => stored and answered once on completion), every request coroutine (response xor *t_api.Error on every path under failures, no panic), every gRPC call (one kernel request, one reply or error). The concurrent half of the statement needs goroutine interleavings and is explicitly outside.", "4/C12"),
  "C13": ("Panic reachability: SMT decides for every path of every gRPC handler (symbolic request, real coroutine behind it), of the stored-data decoders and of every background coroutine whether a Go panic / failed assertion / nil dereference is reachable; a model is a concrete crashing request or stored value. Ten such defects were found, demonstrated natively and repaired (see known_findings.txt).", "4/C13"),
  "C15": ("Status tables are total on every status constant declared in the current source and map to the code of their class; for each gRPC handler the reply produced from the real kernel outcome agrees with it (flags, codes, exactly one reply).", "4/C15"),
+ "C17": ("Translation validation of the two store backends: 27 command kinds x (same error, same result, same post-database) + schema comparison, all decided by SMT over the two real handlers and their own SQL texts; any edit to postgres.go that changes a guard, an argument binding or a SET list yields a model.", "4/C17"),
  "C19": ("Each clause of receiver resolution is an SMT obligation over the real router and sender code for arbitrary tag values / stored receivers / plugin availability.", "4/C19"),
  "C14": ("Search statements of both backends are checked against the specification of a page for arbitrary tables, patterns, state masks, tags, limits and cursors; the coroutine's cursor logic (present iff page full, same query, SortId = last row) and the lazily timed-out rows are checked under interference; a two-page induction step shows no row is skipped or repeated when a cursor is followed while other requests interleave.", "4/C14"),
  "C09": ("The four lock coroutines run on an arbitrary lock table under interference and faults: acquire is refused iff another execution holds the resource (whatever its expiry) and otherwise sets owner/ttl/expiry = t + ttl; release removes exactly the caller's own lock; heartbeat extends exactly the rows of that process to t + ttl and never creates or transfers a lock; the sweep deletes exactly rows with expires_at <= t. Every lock row of another execution is shown unchanged by each transaction.", "4/C09"),
@@ -32,6 +33,7 @@ NOTE = {
  "C12": "Trusted as C01; category model_checking over sequential paths. Goroutine-level behaviour (Signal, Shutdown races, AIO backpressure with blocking channels) is not encoded: seeded changes of that kind are not detected.",
  "C13": "Trusted as C01 plus the front-end stubs (protobuf structs as plain Go values, jwt fork, json contracts). HTTP handlers are not executed.",
  "C15": "Trusted as C13; HTTP side not executed.",
+ "C17": "Trusted: the SQL statement model is the same for both dialects except the declared differences. Known findings: the Postgres 32-bit INTEGER columns (5 entries).",
  "C19": "Trusted: json/url contracts as stated; recording plugins stand for the real transports.",
  "C14": "Trusted as C01 plus LIKE/tag-matching contracts; page sizes 1..3, 2-3 rows.",
  "C09": "Trusted as C01; bounds: 2 lock rows (3 thorough), ttl and clock < 2^62.",
